@@ -98,6 +98,7 @@ type scn struct {
 	errGate  string            // the first ErrorCallback(io.EOF) (connection lost) blocks until this gate opens
 	errGated bool
 	gateSess bool          // the service runs on a gateSession
+	wedged   bool          // an API call did not return (the service mutex is held for good): further calls are pointless
 	ctmo     time.Duration // ConnectTimeout of this scenario (0: tmoLong)
 	running  bool          // a Start returned true and no Stop returned true since
 	offGate  string        // the first OfflineCallback blocks until this gate opens
@@ -202,8 +203,17 @@ func (s *scn) waitCountD(key string, n int, bound time.Duration, record bool) bo
 
 // recovers: a running service gets a fresh command through, whatever happened before (the peers'
 // failure plans are finite; a command lost with its connection is not re-sent, so a new one is tried)
+func (s *scn) isWedged() bool {
+	s.mu.Lock()
+	defer s.mu.Unlock()
+	return s.wedged
+}
+
 func (s *scn) recovers() {
 	for i := 0; i < 16; i++ {
+		if s.isWedged() {
+			return
+		}
 		var a int
 		s.via(func() { a = s.cmd(pub("final", fmt.Sprintf("%d", i), 1)) })
 		if s.waitCountD(fmt.Sprintf("fut:%d", a), 1, 1500*time.Millisecond, false) {
@@ -465,6 +475,9 @@ func (s *scn) unlockAPI() {
 }
 
 func (s *scn) start() bool {
+	if s.isWedged() {
+		return false
+	}
 	s.lockAPI()
 	defer s.unlockAPI()
 	s.ev("startcall")
@@ -482,12 +495,16 @@ func (s *scn) start() bool {
 	case <-time.After(waitBound):
 		s.mu.Lock()
 		s.fails = append(s.fails, "start-did-not-return")
+		s.wedged = true
 		s.mu.Unlock()
 		return false
 	}
 }
 
 func (s *scn) stop(clear bool) bool {
+	if s.isWedged() {
+		return false
+	}
 	s.lockAPI()
 	defer s.unlockAPI()
 	// watchers do not report while a Stop is in flight: Stop's effects are one step of the model
@@ -507,6 +524,7 @@ func (s *scn) stop(clear bool) bool {
 	case <-time.After(waitBound):
 		s.mu.Lock()
 		s.fails = append(s.fails, "stop-did-not-return")
+		s.wedged = true
 		s.mu.Unlock()
 	}
 	s.futMu.Unlock()
@@ -587,6 +605,7 @@ func (s *scn) cmd(b body) int {
 	case <-time.After(waitBound):
 		s.mu.Lock()
 		s.fails = append(s.fails, fmt.Sprintf("api-call-%d-did-not-return", n))
+		s.wedged = true
 		s.mu.Unlock()
 		s.direct("queue", fmt.Sprintf("call-%d-blocked-longer-than-QueueTimeout(%v)", n, s.qtmo))
 		return n
